@@ -25,7 +25,8 @@ PROP = {
     "id": "C15",
     "thm_module": "Tyme.Thm.C15",
     "thm_file": "Tyme/Thm/C15.lean",
-    "lean_targets": ["Tyme.Thm.C15"],
+    "lean_targets": ["Tyme.Thm.C15", "Tyme.Thm.C15b"],
+    "fact_files": [("Tyme/Thm/C15b.lean", "Tyme.Thm.C15b")],
     "audit_files": ["Tyme/Model/Series.lean", "Tyme/Spec/Series.lean", "Tyme/Lemmas/Series.lean", "Tyme/Facts/C15Dec.lean",
                     "Tyme/Model/Term.lean", "Tyme/Model/SixtyCycle.lean", "Tyme/Model/Lunar.lean"],
     "gen": [gen_eph],
